@@ -1228,7 +1228,102 @@ pub fn run_one_signal(c: &OneCase) -> CaseOutcome {
     (info, viol)
 }
 
+/// Many instances pending at one dispatch: the first `n` signals of ALL_SIGNALS without SIGCONT (generating SIGCONT
+/// discards pending stop signals in the kernel, and the other way round) are configured on one source, each raised
+/// thread-directed and / or process-directed, then ONE dispatch: every pending instance is reported exactly once.
+#[derive(Serialize, Deserialize, Debug, Clone, Hash, PartialEq, Eq)]
+pub struct BurstCase {
+    pub n: u8,
+    /// 0 = raise, 1 = kill(getpid()), 2 = both (two instances per signal)
+    pub how: u8,
+}
+
+pub fn run_burst(c: &BurstCase) -> CaseOutcome {
+    let sigs: Vec<(Signal, i32, &str)> = ALL_SIGNALS.iter().copied().filter(|s| s.1 != libc::SIGCONT).take((c.n as usize).clamp(1, 26)).collect();
+    let mut info = CaseInfo { fingerprint: fingerprint(c), nontrivial: true, ..CaseInfo::default() };
+    let instances = sigs.len() * if c.how % 3 == 2 { 2 } else { 1 };
+    info.classes.push(if instances > 16 { "burst_more_than_16_pending_instances" } else { "burst_up_to_16_pending_instances" });
+    let v = |what: String| Some(Violation::new("C19.delivery", format!("{} configured signals, {instances} instances pending at one dispatch: {what}", sigs.len())).with_sig("C19.delivery/burst"));
+    // counting handlers for all of them (nothing may stay pending into a default disposition), all unblocked
+    let mut old: Vec<libc::sigaction> = Vec::new();
+    unsafe {
+        for s in &sigs {
+            let mut sa: libc::sigaction = std::mem::zeroed();
+            sa.sa_sigaction = on_one as usize;
+            sa.sa_flags = libc::SA_SIGINFO;
+            libc::sigemptyset(&mut sa.sa_mask);
+            let mut o: libc::sigaction = std::mem::zeroed();
+            assert_eq!(libc::sigaction(s.1, &sa, &mut o), 0, "sigaction");
+            old.push(o);
+            libc::pthread_sigmask(libc::SIG_UNBLOCK, &one_set(s.1), std::ptr::null_mut());
+        }
+    }
+    ONE_COUNT.store(0, Ordering::SeqCst);
+    let viol = (|| {
+        let list: Vec<Signal> = sigs.iter().map(|s| s.0).collect();
+        let src = match catch_unwind(AssertUnwindSafe(|| Signals::new(&list))) {
+            Ok(Ok(s)) => s,
+            Ok(Err(e)) => return v(format!("Signals::new failed: {e}")),
+            Err(_) => return v("Signals::new panicked".into()),
+        };
+        let mut want: Vec<(i32, i32)> = Vec::new();
+        for s in &sigs {
+            if c.how % 3 != 1 {
+                unsafe { libc::raise(s.1) };
+                want.push((s.1, SI_TKILL));
+            }
+            if c.how % 3 != 0 {
+                unsafe { libc::kill(libc::getpid(), s.1) };
+                want.push((s.1, SI_USER));
+            }
+        }
+        if ONE_COUNT.load(Ordering::SeqCst) != 0 {
+            return v("a configured signal reached its process-level handler".into());
+        }
+        let mut el: EventLoop<'static, Vec<(i32, i32)>> = EventLoop::try_new().expect("event loop");
+        let tok = match el.handle().insert_source(src, |ev: Event, _, data: &mut Vec<(i32, i32)>| data.push((ev.signal() as i32, ev.code()))) {
+            Ok(t) => t,
+            Err(e) => return v(format!("insert_source failed: {e}")),
+        };
+        let mut got = Vec::new();
+        if let Err(e) = el.dispatch(Some(Duration::ZERO), &mut got) {
+            return v(format!("dispatch failed: {e}"));
+        }
+        got.sort_unstable();
+        want.sort_unstable();
+        if got != want {
+            let dup = got.windows(2).filter(|w| w[0] == w[1]).count();
+            return v(format!("the callback received {} events ({} of them duplicates), expected each of the {} pending (signal, si_code) instances once; got {got:?}", got.len(), dup, want.len()));
+        }
+        el.handle().remove(tok);
+        if ONE_COUNT.load(Ordering::SeqCst) != 0 {
+            return v("after the source was dropped a handler ran although every instance had been reported".into());
+        }
+        None
+    })();
+    unsafe {
+        for (s, o) in sigs.iter().zip(old.iter()) {
+            libc::pthread_sigmask(libc::SIG_UNBLOCK, &one_set(s.1), std::ptr::null_mut());
+            libc::sigaction(s.1, o, std::ptr::null_mut());
+        }
+    }
+    (info, viol)
+}
+
 fn each_signal(ctx: &CheckCtx) -> Option<Found> {
+    if let Some(f) = ctx.run_replays::<BurstCase, _>("burst", run_burst) {
+        return Some(f);
+    }
+    for n in [1u8, 8, 9, 15, 16, 17, 20, 26] {
+        for how in 0..3u8 {
+            let c = BurstCase { n, how };
+            let (info, v) = run_burst(&c);
+            ctx.col.record(&info, || serde_json::to_value(&c).unwrap());
+            if let Some(v) = v {
+                return Some(Found { sub: "burst".into(), violation: v, case: serde_json::to_value(&c).unwrap(), replay_path: None });
+            }
+        }
+    }
     if let Some(f) = ctx.run_replays::<OneCase, _>("each_signal", run_one_signal) {
         return Some(f);
     }
@@ -1294,6 +1389,10 @@ pub fn replay(_ctx: &CheckCtx, sub: &str, case: serde_json::Value) -> Result<Opt
     if sub == "each_signal" {
         let c: OneCase = serde_json::from_value(case).map_err(|e| e.to_string())?;
         return Ok(run_one_signal(&c).1);
+    }
+    if sub == "burst" {
+        let c: BurstCase = serde_json::from_value(case).map_err(|e| e.to_string())?;
+        return Ok(run_burst(&c).1);
     }
     let c: Case = serde_json::from_value(case).map_err(|e| e.to_string())?;
     if thread_count() != Some(1) {
